@@ -535,6 +535,14 @@ def r12(repo, rep):
                 w_ok = True
             if unw and short(st.value).replace(" ", "") in ("len(self)", "len(self.items)"):
                 u_ok = True
+            # the same choice written as one conditional expression
+            v = st.value
+            if isinstance(v, ast.IfExp):
+                a, b = (v.body, v.orelse) if _is_self_attr(v.test, "weighted") else \
+                    ((v.orelse, v.body) if isinstance(v.test, ast.UnaryOp) and isinstance(v.test.op, ast.Not)
+                     and _is_self_attr(v.test.operand, "weighted") else (None, None))
+                if a is not None and _is_self_attr(a, "_total_weight") and short(b).replace(" ", "") in ("len(self)", "len(self.items)"):
+                    w_ok = u_ok = True
     rep.ob("R12.I5", w_ok and u_ok, "total_weight(): _total_weight if weighted else len(self)",
            func=tw, node=tw.node, construct="total_weight",
            detail="" if (w_ok and u_ok) else "total_weight() must return self._total_weight when weighted and len(self) otherwise")
